@@ -1,0 +1,11 @@
+//go:build verif
+
+package aucoalesce
+
+// VerifNormalizations returns the built-in normalisation tables as loaded by init().
+func VerifNormalizations() (syscalls map[string]*Normalization, recordTypes map[string][]*Normalization) {
+	return syscallNorms, recordTypeNorms
+}
+
+// VerifNormalizationYAML returns the embedded normalisation table source.
+func VerifNormalizationYAML() []byte { return normalizationDataYAML }
